@@ -63,6 +63,10 @@ class Plane(GeoBody):
             # We need a vector orthogonal to the two given ones so we
             # (the length doesn't matter) so we just use the cross
             # product
+            if vab.parallel(vac):
+                raise ValueError(
+                    "Cannot initialize a Plane with collinear points or parallel vectors"
+                )
             vec = vab.cross(vac)
             self._init_pn(a, vec)
         elif len(args) == 2:
